@@ -78,6 +78,12 @@ def strategy(draw):
     spec["fcs"] = fcs
     perm = draw(st.permutations(list(range(nrec))))
     sub = [i for i in range(nrec) if draw(st.booleans())] or [draw(st.integers(0, nrec - 1))]
+    if nrec >= 3 and draw(gen.chance(10)):
+        # a dead window (all samples zero) among ordinary ones: its ratio is 0/0, so the call is refused as a whole -
+        # what must not happen is a result with fewer curves than windows
+        j = draw(st.integers(0, nrec - 1))
+        for c in ("ns", "ew", "vt"):
+            recs[j][c] = dict(kind="raw", scale_exp=0, values=[0.0], trend=0.0)
     return dict(records=recs, spec=spec, perm=list(perm), sub=sub, above=above)
 
 
